@@ -246,9 +246,12 @@ Definition resp_to_csm (w : wire) : Res csm := resp_loop w (w_start w) [].
 (** * the guard of the round-trip theorem, as a boolean predicate on the bucket list *)
 Definition shape_of (cs : list col) : list (list byte * Z) := map (fun c => (cname c, ctype c)) cs.
 
-Definition shape_eqb (a b : list (list byte * Z)) : bool :=
-  (length a =? length b)%nat
-  && forallb (fun p => bytes_eqb (fst (fst p)) (fst (snd p)) && Z.eqb (snd (fst p)) (snd (snd p))) (combine a b).
+Fixpoint shape_eqb (a b : list (list byte * Z)) : bool :=
+  match a, b with
+  | [], [] => true
+  | (n, t) :: a', (m, u) :: b' => bytes_eqb n m && Z.eqb t u && shape_eqb a' b'
+  | _, _ => false
+  end.
 
 (** every column holds exactly [n] values *)
 Definition rows_ok (n : nat) (cs : list col) : bool :=
